@@ -186,7 +186,7 @@ func zeroOf(t types.Type) Val {
 
 func (ev *Evaluator) Eval(fn *ssa.Function, args []Val) (*Outcome, error) {
 	if ev.MaxDepth == 0 {
-		ev.MaxDepth = 6
+		ev.MaxDepth = 10
 	}
 	ev.depth++
 	defer func() { ev.depth-- }()
